@@ -330,14 +330,59 @@ Proof.
       apply bal_app; [exact Hb | now apply Hbc].
 Qed.
 
+Lemma take_words_spec : forall n l r, take_words n l = Some r -> exists c, l = c ++ r /\ bal 0 c = true.
+Proof.
+  induction n as [|n IH]; intros l r H.
+  - cbn in H. inversion H; subst. exists []. split; reflexivity.
+  - cbn [take_words] in H. destruct l as [|[| |w] l']; try discriminate.
+    destruct (IH _ _ H) as (c & Hc & Hb). exists (TW w :: c). split; [now rewrite Hc | exact Hb].
+Qed.
+
+(* the contents of a block and its closing brace close exactly the level that was open *)
+Lemma block_contents_bal : forall l k c rest, block_contents (S k) l = Some (c, rest) ->
+  l = c ++ TC :: rest /\ bal (S k) (c ++ [TC]) = true.
+Proof.
+  induction l as [|t r IH]; intros k c rest H; [discriminate|].
+  destruct t as [| |w]; cbn [block_contents] in H.
+  - destruct (block_contents (S (S k)) r) as [[c' rest']|] eqn:E; [|discriminate].
+    inversion H; subst. destruct (IH _ _ _ E) as [Hl Hb]. split; [cbn [app]; now rewrite Hl | exact Hb].
+  - destruct k as [|k'].
+    + inversion H; subst. split; reflexivity.
+    + destruct (block_contents (S k') r) as [[c' rest']|] eqn:E; [|discriminate].
+      inversion H; subst. destruct (IH _ _ _ E) as [Hl Hb]. split; [cbn [app]; now rewrite Hl | exact Hb].
+  - destruct (block_contents (S k) r) as [[c' rest']|] eqn:E; [|discriminate].
+    inversion H; subst. destruct (IH _ _ _ E) as [Hl Hb]. split; [cbn [app]; now rewrite Hl | exact Hb].
+Qed.
+
+Lemma read_layout_spec : forall es l r, read_layout es l = Some r -> exists c, l = c ++ r /\ bal 0 c = true.
+Proof.
+  induction es as [|e es IH]; intros l r H.
+  - cbn in H. inversion H; subst. exists []. split; reflexivity.
+  - destruct e as [w|n|w]; cbn [read_layout] in H.
+    + destruct l as [|[| |k] l']; try discriminate. destruct (k =? w); [|discriminate].
+      destruct (IH _ _ H) as (c & Hc & Hb). exists (TW k :: c). split; [now rewrite Hc | exact Hb].
+    + destruct (take_words n l) as [l1|] eqn:Et; [|discriminate].
+      destruct (take_words_spec _ _ _ Et) as (c1 & Hc1 & Hb1). destruct (IH _ _ H) as (c & Hc & Hb).
+      exists (c1 ++ c). split; [rewrite Hc1, Hc; now rewrite app_assoc | now apply bal_app].
+    + destruct l as [|[| |k] [|[| |x] l']]; try discriminate. destruct (k =? w); [|discriminate].
+      destruct (block_contents 1 l') as [[cc l2]|] eqn:Eb; [|discriminate].
+      destruct (block_contents_bal _ _ _ _ Eb) as [Hl Hbb]. destruct (IH _ _ H) as (c & Hc & Hb).
+      exists (TW k :: TO :: (cc ++ [TC]) ++ c). split.
+      * cbn [app]. rewrite Hl, Hc. rewrite <- !app_assoc. reflexivity.
+      * cbn [bal]. now apply bal_app.
+Qed.
+
 Lemma data_wellformed_c : data_wellformed read_data_c.
 Proof.
   intros b l r e. unfold read_data_c.
+  destruct (read_layout (b_layout b) l) as [l1|] eqn:El; [|discriminate].
+  destruct (read_layout_spec _ _ _ El) as (c1 & Hc1 & Hb1).
   destruct (b_kind b) as [|[|k]].
-  - intros H; inversion H; subst. exists []. split; reflexivity.
-  - destruct (read_hills (length l) l) as [r' e'] eqn:E. intros H; inversion H; subst.
-    now apply (read_hills_spec _ _ _ _ E).
-  - intros H; inversion H; subst. exists []. split; reflexivity.
+  - intros H; inversion H; subst. exists c1. auto.
+  - destruct (read_hills (length l1) l1) as [r' e'] eqn:E. intros H; inversion H; subst.
+    destruct (read_hills_spec _ _ _ _ E) as (c & Hc & Hb).
+    exists (c1 ++ c). split; [rewrite Hc; now rewrite app_assoc|]. intros He. apply bal_app; auto.
+  - intros H; inversion H; subst. exists c1. auto.
 Qed.
 
 Lemma cut_in_block_is_error_c colvars biases l0 kw b :
